@@ -11,6 +11,7 @@ Ltac Zify.zify_post_hook ::= Z.div_mod_to_equations.
 
 Definition dec_complete (dec : decoder) : Prop :=
   forall pre n post lim, valid_abs n -> len pre + len (wire_abs n) <= lim ->
+    lim <= len (pre ++ wire_abs n ++ post) ->
     dec (pre ++ wire_abs n ++ post) (len pre) lim = Ok (n, len pre + len (wire_abs n)).
 
 Definition dec_sound (dec : decoder) : Prop :=
@@ -124,30 +125,31 @@ Qed.
 
 Lemma strs_count l : N.of_nat (length l) <= len (concat (map charstr_wire l)).
 Proof.
-  induction l as [|b l IH]; [rewrite len_nil; simpl; lia|].
-  cbn [map concat length]. rewrite len_app. unfold charstr_wire. rewrite len_cons. lia.
+  induction l as [|b l IH]; [cbn; lia|].
+  cbn [map concat length]. rewrite len_app. unfold charstr_wire at 1. rewrite len_cons. lia.
 Qed.
 
 Lemma parse_field_at f x m pos lim pre post :
   wf_fval false f x = true ->
-  m = pre ++ compose_field false f x ++ post -> pos = len pre ->
+  m = pre ++ compose_field false f x ++ post -> pos = len pre -> lim <= len m ->
   (delimited f = true /\ pos + len (compose_field false f x) <= lim) \/
   lim = pos + len (compose_field false f x) ->
   parse_field dec f m pos lim = Ok (x, pos + len (compose_field false f x)).
 Proof.
-  intros Hw Hm Hp Hlim.
+  intros Hw Hm Hp Hmax Hlim.
   assert (Hle : pos + len (compose_field false f x) <= lim) by (destruct Hlim as [[_ H]|H]; lia).
   destruct f, x; try discriminate; cbn [wf_fval compose_field parse_field] in *.
   - (* FNum *)
-    rewrite (rd_at _ _ _ _ pre (be w n) post Hm Hp) by (rewrite ?len_be; auto).
-    cbn [bind fst snd]. rewrite of_be_be by lia. rewrite len_be. reflexivity.
+    rewrite len_be in *.
+    rewrite (rd_at _ _ _ _ pre (be w n) post Hm Hp); [|rewrite len_be; reflexivity|exact Hle].
+    cbn [bind fst snd]. rewrite of_be_be by lia. reflexivity.
   - (* FFix *)
     apply andb_true_iff in Hw as [Hk _]. apply Nat.eqb_eq in Hk.
     rewrite (rd_at _ _ _ _ pre b post Hm Hp); [| unfold len; lia | rewrite <- Hk; exact Hle].
-    cbn [bind fst snd]. unfold len at 2. rewrite Hk. reflexivity.
+    cbn [bind fst snd]. f_equal. f_equal. unfold len. lia.
   - (* FName *)
     cbn [andb] in *. subst m pos.
-    rewrite Hdec; [reflexivity| |exact Hle].
+    rewrite Hdec; [reflexivity| |exact Hle|exact Hmax].
     apply valid_relb_spec. exact Hw.
   - (* FCharStr *)
     apply andb_true_iff in Hw as [Hs Hc]. unfold charstr_wire in *. rewrite len_cons in *.
@@ -194,12 +196,14 @@ Proof.
       - right. destruct v; [|discriminate]. subst rest. cbn [compose_fields] in Hl.
         rewrite len_nil in Hl. lia.
       - left. cbn [wf_fields] in Hs. apply andb_true_iff in Hs as [Hs _]. split; [exact Hs|lia]. }
-    rewrite (parse_field_at f x _ (len pre) lim pre (rest ++ post) Hx); [| |reflexivity|exact Hd].
+    rewrite (parse_field_at f x _ (len pre) lim pre (rest ++ post) Hx); [| |reflexivity| |exact Hd].
     2:{ subst cf. rewrite <- !app_assoc. reflexivity. }
+    2:{ rewrite !len_app. lia. }
     cbn [bind fst snd]. fold cf.
     replace (pre ++ (cf ++ rest) ++ post) with ((pre ++ cf) ++ rest ++ post)
       by (rewrite <- !app_assoc; reflexivity).
-    rewrite <- len_app. rewrite IH.
+    replace (len pre + len cf) with (len (pre ++ cf)) by (rewrite len_app; reflexivity).
+    subst rest. rewrite (IH v (pre ++ cf) post lim).
     + reflexivity.
     + destruct s as [|g s']; [reflexivity|]. cbn [wf_fields] in Hs.
       apply andb_true_iff in Hs as [_ Hs]. exact Hs.
@@ -223,8 +227,7 @@ Definition wf_schema_full (s : schema) : bool :=
 Lemma fixed_len_le s : forall v, wf_fvals false s v = true -> fixed_len s <= fields_len s v.
 Proof.
   induction s as [|f s IH]; intros [|x v] H; cbn [wf_fvals] in H; try discriminate.
-  - cbn. lia.
-  - apply andb_true_iff in H as [Hx Hv]. specialize (IH _ Hv).
+  apply andb_true_iff in H as [Hx Hv]. specialize (IH _ Hv).
     destruct f, x; try discriminate; cbn [fixed_len fields_len field_len]; try lia.
     cbn [wf_fval] in Hx. apply andb_true_iff in Hx as [Hk _]. apply Nat.eqb_eq in Hk.
     unfold len. lia.
@@ -278,8 +281,7 @@ Qed.
 Lemma compose_field_canon f x :
   compose_field true f x = compose_field false f (lower_field f x).
 Proof.
-  destruct f, x; try reflexivity. cbn [compose_field lower_field].
-  destruct lower; reflexivity.
+  destruct f as [w|k|c l|chk| | |mn], x; try reflexivity; destruct l; reflexivity.
 Qed.
 
 Theorem canonical_only_lowercases s v :
@@ -318,6 +320,7 @@ Theorem canonical_idempotent s v :
 Proof.
   unfold compose_canonical, lower_flagged. generalize (s_fields s) as l. intros l. revert v.
   induction l as [|f l IH]; intros [|x v]; cbn [compose_fields lower_flagged_fields]; try reflexivity.
-  rewrite IH. f_equal. destruct f, x; try reflexivity. cbn [lower_field compose_field].
-  destruct lower; cbn [andb lower_field compose_field]; [rewrite canon_idem|]; reflexivity.
+  rewrite IH. f_equal.
+  destruct f as [w|k|c lw|chk| | |mn], x; try reflexivity; destruct lw;
+    cbn [lower_field compose_field andb]; rewrite ?canon_idem; reflexivity.
 Qed.
